@@ -91,7 +91,52 @@ def run_case(case):
     return None, sts
 
 
+def run_scripted(case):
+    """the user side against a scripted peer (not this library's provider): k pending responses, then ONE final response
+    with any non-pending status - success, failure, cancel, warning-class or unknown code.  The user must yield
+    the k matches and the final status and then stop: it must not ask for another response."""
+    from pynetdicom2 import sopclass as sc, dimsemessages as dm, dsutils
+    rnd = common.rng('c16s-%d' % case['seed'])
+    ts = svc.TSS[case['ts']]
+    user = {'find': sc.qr_find_scu, 'mwl': sc.modality_work_list_scu}[case['variant']]
+    sop = sc.PATIENT_ROOT_FIND_SOP_CLASS if case['variant'] != 'mwl' else sc.MODALITY_WORK_LIST_INFORMATION_FIND_SOP_CLASS
+    c = svc.ctx(case['pc'], sop, ts)
+    dss = [make_ds(rnd, k) for k in range(case['n'])]
+    script = []
+    for k, ds in enumerate(dss):
+        script.append(svc.received(dm.CFindRSPMessage, case['pc'], message_id_being_responded_to=case['msgid'], sop_class_uid=sop,
+                                   status=case['pending'][k % len(case['pending'])],
+                                   data_set=dsutils.encode(ds, ts.is_implicit_VR, ts.is_little_endian)))
+    script.append(svc.received(dm.CFindRSPMessage, case['pc'], message_id_being_responded_to=case['msgid'], sop_class_uid=sop,
+                               status=case['final']))
+    ua = svc.MockAssociation(types.SimpleNamespace(), max_pdu_length=16384)
+
+    def receive():
+        if not script:
+            raise RuntimeError('the user asked for another response after the final one (status %04x)' % case['final'])
+        return script.pop(0)
+    ua.receive = receive
+    got = []
+    try:
+        for item in user(ua, c, make_ds(rnd, 999), case['msgid']):
+            got.append(item)
+            if len(got) > case['n'] + 3:
+                return 'iteration does not end after the final response (status %04x)' % case['final']
+    except RuntimeError as e:
+        return str(e)
+    if script:
+        return 'iteration ended with %d responses unread' % len(script)
+    want = [(dsutils.encode(d, True, True), case['pending'][k % len(case['pending'])]) for k, d in enumerate(dss)] + [(None, case['final'])]
+    have = [(None if d is None else dsutils.encode(d, True, True), int(st)) for d, st in got]
+    if have != want:
+        return 'user yielded %r for %d matches then final %04x' % ([(None if d is None else len(d), '%04x' % st) for d, st in have][:6],
+                                                                 case['n'], case['final'])
+    return None
+
+
 def replay(case):
+    if 'final' in case:
+        return run_scripted(case)
     r = run_case(case)
     return r if isinstance(r, str) else None
 
@@ -104,7 +149,9 @@ def run(chk):
                 'the provider finished, as a slow provider thread would): result sequences of length 0..30 with FF00/FF01 in '
                 'every mix, three transfer syntaxes, maximum lengths that force multi-fragment responses, boundary message '
                 'ids; the yielded (data set, status) pairs are compared with the handler\'s matches, and the status sequence '
-                'with the Lean model findScu (findScp ..); non-trivial = at least one match')
+                'with the Lean model findScu (findScp ..); and the user side alone against a scripted peer whose single final response '
+                'carries each class of non-pending status (success, refused, failed, cancelled, warning-class, unknown) after 0, 1, 3 '
+                'pending ones: it must yield them all and then stop; non-trivial = at least one match')
     chk.trusted += ['harness/svc.py mock association (scripted receive, deferred consumption of sent fragments)',
                     'pydicom data set encode/decode']
     chk.assumptions += ['the c_find convenience wrapper is qr_find_scu behind request_association: its loop is exercised here, '
@@ -122,6 +169,22 @@ def run(chk):
         cases.append({'variant': rnd.choice(['find', 'mwl']), 'n': rnd.randrange(0, 12), 'code': 0xFF00, 'mix': True,
                       'ts': rnd.randrange(3), 'pc': rnd.randrange(1, 256, 2), 'maxlen': rnd.choice([0, 30, 64, 1024, 16384]),
                       'msgid': rnd.randrange(65536), 'seed': seed})
+    # the user side against a scripted peer: every class of final status
+    sseed = 0
+    for variant in ('find', 'mwl'):
+        for final in (0x0000, 0xA700, 0xA900, 0xC000, 0xC123, 0xFE00, 0x0122, 0xB000, 0x0001, 0x1234):
+            for n in (0, 1, 3):
+                sseed += 1
+                sc_case = {'variant': variant, 'final': final, 'n': n, 'pending': [[0xFF00], [0xFF01], [0xFF00, 0xFF01]][sseed % 3],
+                           'ts': sseed % 3, 'pc': [1, 3, 255][sseed % 3], 'msgid': [1, 0, 65535][sseed % 3], 'seed': sseed}
+                try:
+                    r = run_scripted(sc_case)
+                except Exception as e:  # pylint: disable=broad-except
+                    common.raise_for(common.describe_exc(e))
+                chk.case(repr(sc_case), True, {'scripted_peer': True, 'final': '%04x' % final, 'n': n} if final not in (0,) and n == 1 and len(chk.samples) < 10 else None)
+                chk.count('final:%04x' % final)
+                if r:
+                    chk.violation('C16:scripted:' + r[:24], '%s (%s against a scripted peer, %d matches)' % (r, variant, n), sc_case)
     ops, got, keep = [], [], []
     for case in cases:
         try:
